@@ -16,7 +16,7 @@ import (
 func init() { register("C21", c21) }
 
 func c21(p *an.Prog, r *an.R, tier string) {
-	r.Explanation = "C21 (structural clause): limits and cancellation are skip-guards only. In packages index and search every read of SearchOptions.ShardMaxMatchCount / ShardRepoMaxMatchCount / TotalMaxMatchCount is used solely in comparisons that feed branch conditions: it never flows into a slice expression, a stored value, a call argument or a return value (so it cannot truncate a file's matches); in indexData.Search a cancellation test, once it observed cancellation, cannot lead to the current document being added to the result (it can only stop before a document is evaluated). Does NOT decide 'identical matches and branches' (value-level) nor promptness of cancellation."
+	r.Explanation = "C21 (structural clause): limits and cancellation are skip-guards only. In packages index and search every read of SearchOptions.ShardMaxMatchCount / ShardRepoMaxMatchCount / TotalMaxMatchCount is used solely in comparisons that feed branch conditions: it never flows into a slice expression, a stored value, a call argument or a return value (so it cannot truncate a file's matches); in indexData.Search a cancellation test, once it observed cancellation, cannot lead to the current document being added to the result (it can only stop before a document is evaluated). (R3) exactly one call in packages search/index derives a deadline or timer from MaxWallTime. Does NOT decide 'identical matches and branches' (value-level) nor promptness of cancellation."
 	r.Rule("C21.R1", "limit reads: the value of a match-count limit flows only into integer comparisons whose result flows only into branch conditions")
 	r.Rule("C21.R2", "cancellation: from the edge on which a ctx.Err()/ctx.Done() observation is positive, the append to SearchResult.Files is unreachable without first starting the next document")
 	c21Deadline(p, r)
